@@ -37,6 +37,12 @@ R  == INSTANCE Prng
 D  == INSTANCE Der
 Hx == INSTANCE Hex
 Em == INSTANCE Emit
+Pr == INSTANCE Pairing
+(* exact GT (algo/Fp12, algo/Pairing): g^k for the generator e(P1, P2); every GT value of the schemes is a power of it.   *)
+(* e(P1, Ppub-s)^r = GtPow(ks r), e(Ppub-e, P2)^r = GtPow(ke r).  The symbolic dlog algebra above stays the state;        *)
+(* the exact bytes are computed only in the emitted expectations (signature, encapsulated key, ciphertext).                *)
+GTGenC == Pr!GTGen
+GtPowBytes(k) == Pr!GTBytes(Pr!F12Exp(GTGenC, k))
 VARIABLES ks, ke, arts, nops, hist
 vars == <<ks, ke, arts, nops, hist>>
 View == <<ks, ke, arts, nops>>
@@ -177,8 +183,12 @@ Sign(ulen, hid, mc, mlen, rc, how) ==
      IN /\ ~BN!IsZero(S!T1(ks, h1)) /\ ~BN!IsZero(l)
         /\ arts' = Append(arts, [t |-> "sig", uid |-> uid, hid |-> hid, msg |-> msg, how |-> how, h |-> h, s |-> MulN(l, t2), h1 |-> h1])
         /\ UNCHANGED <<ks, ke>>
-        /\ Emit([op |-> "sign", dst |-> Len(arts) + 1, uid |-> HexB(uid), hid |-> hid, msg |-> HexB(msg), how |-> how,
-                 script |-> <<HexB(S!Scalar32(r))>>, len |-> LayLen(SigLayout(how))])
+        /\ \E ex \in {LET wb == GtPowBytes(MulN(ks, r))
+                         hx == S!SigH(msg, wb)
+                         sx == S!SigS(S!DsA(ks, h1), r, hx)
+                     IN IF BN!IsZero(S!SigL(r, hx)) THEN <<>> ELSE IF how = "func" THEN S!SigRaw(hx, sx) ELSE S!SigASN1(hx, sx)} :
+             Emit([op |-> "sign", dst |-> Len(arts) + 1, uid |-> HexB(uid), hid |-> hid, msg |-> HexB(msg), how |-> how,
+                   script |-> <<HexB(S!Scalar32(r))>>, len |-> LayLen(SigLayout(how)), expsig |-> HexB(ex)])
 
 IdVariants == {"ok", "wrongid", "shortid", "longid", "wronghid"}
 (* v = [v |-> "ok" | "wrongid" | ... | "wrongmsg" | "longmsg" | "tamper", pos, mask] *)
@@ -214,8 +224,10 @@ Wrap(ulen, hid, klen, rc, how) ==
         /\ arts' = Append(arts, [t |-> "wrap", uid |-> uid, hid |-> hid, klen |-> klen, how |-> how, c |-> c, w |-> MulN(ke, r), h1 |-> h1,
                                  c64 |-> B!G1Bytes(exact), refines |-> (B!E1!Mul(c, B!E1!G) = exact)])
         /\ UNCHANGED <<ks, ke>>
-        /\ Emit([op |-> "wrap", dst |-> Len(arts) + 1, uid |-> HexB(uid), hid |-> hid, klen |-> klen, how |-> how,
-                 script |-> <<HexB(S!Scalar32(r))>>, exp |-> HexB(IF how = "func" THEN c65 ELSE S!BitsASN1(c65))])
+        /\ \E kx \in {S!KemK(B!G1Bytes(exact), GtPowBytes(MulN(ke, r)), uid, klen)} :
+             Emit([op |-> "wrap", dst |-> Len(arts) + 1, uid |-> HexB(uid), hid |-> hid, klen |-> klen, how |-> how,
+                   script |-> <<HexB(S!Scalar32(r))>>, exp |-> HexB(IF how = "func" THEN c65 ELSE S!BitsASN1(c65)),
+                   expkey |-> IF \A i \in 1..Len(kx) : kx[i] = 0 THEN "" ELSE HexB(kx)])
 
 KeyVariants == {"ok", "wrongid", "shortid", "longid", "wrongkey", "wronghidkey"}
 (* the consumer's key (uidk, hidk) and the identity it passes (uidarg) under variant v *)
@@ -259,10 +271,12 @@ Encrypt(ulen, hid, mc, mlen, mode, enc, rc) ==
         /\ arts' = Append(arts, [t |-> "ct", uid |-> uid, hid |-> hid, msg |-> msg, mode |-> mode, enc |-> enc, c |-> c, w |-> MulN(ke, r), h1 |-> h1,
                                  c64 |-> B!G1Bytes(exact), refines |-> (B!E1!Mul(c, B!E1!G) = exact)])
         /\ UNCHANGED <<ks, ke>>
-        /\ Emit([op |-> "enc", dst |-> Len(arts) + 1, uid |-> HexB(uid), hid |-> hid, msg |-> HexB(msg), mode |-> mode, enc |-> enc,
-                 script |-> IF S!NeedsIV(mode) THEN <<HexB(S!Scalar32(r)), HexB(iv)>> ELSE <<HexB(S!Scalar32(r))>>,
-                 len |-> LayLen(lay), c1off |-> FirstOf(lay, "px"), exp |-> HexB(B!G1Bytes(exact)),
-                 ivoff |-> IF S!NeedsIV(mode) THEN FirstOf(lay, "c2") ELSE -1, iv |-> HexB(iv), entype |-> S!EnType(mode)])
+        /\ \E ct \in {LET pp == S!EncParts(B!G1Bytes(exact), GtPowBytes(MulN(ke, r)), uid, mode, iv, msg)
+                     IN IF enc = "raw" THEN S!CipherRaw(pp) ELSE S!CipherASN1(pp, mode)} :
+             Emit([op |-> "enc", dst |-> Len(arts) + 1, uid |-> HexB(uid), hid |-> hid, msg |-> HexB(msg), mode |-> mode, enc |-> enc,
+                   script |-> IF S!NeedsIV(mode) THEN <<HexB(S!Scalar32(r)), HexB(iv)>> ELSE <<HexB(S!Scalar32(r))>>,
+                   len |-> LayLen(lay), c1off |-> FirstOf(lay, "px"), exp |-> HexB(B!G1Bytes(exact)),
+                   ivoff |-> IF S!NeedsIV(mode) THEN FirstOf(lay, "c2") ELSE -1, iv |-> HexB(iv), entype |-> S!EnType(mode), expct |-> HexB(ct)])
 
 Decrypt(a, v) ==
   /\ nops < MaxOps /\ a \in 1..Len(arts) /\ arts[a].t = "ct"
